@@ -93,7 +93,10 @@ class _Emit(Client):
                 return ((f"var:{k.id}", "late", guard, isnext, stored),)
             self.problems.append((node.lineno, f"emits storage[{src(k)}]: key is neither the cursor nor a loop variable"))
             return (state,)
-        if isinstance(value_expr, ast.Name) and value_expr.id == self.value:
+        if isinstance(value_expr, ast.Name) and value_expr.id in getattr(self, "popped", set()):
+            # the item was taken out of the storage by pop(): nothing left to delete, the cursor must advance
+            return ((None, "cursor", guard, isnext, stored),)
+        if isinstance(value_expr, ast.Name) and value_expr.id == self.value and not getattr(self, "value_rebound", False):
             if isnext is not True:
                 self.problems.append((node.lineno, "the incoming value is emitted on a path where its serial is not known to "
                                                    "equal the cursor: emitted before its predecessors"))
@@ -103,6 +106,27 @@ class _Emit(Client):
 
     def event(self, kind, node, state, ctx: Ctx):
         pd, pa, guard, isnext, stored = state
+        if kind == "store" and isinstance(node, ast.Name):
+            av = assigned_value(node)
+            # x = storage.pop(cursor[, default])  /  while x := storage.pop(cursor, None)
+            if isinstance(av, ast.Call) and isinstance(av.func, ast.Attribute) and av.func.attr == "pop" \
+                    and self._is_storage(av.func.value, ctx) and av.args and self._is_cursor(av.args[0], ctx):
+                par = getattr(node, "_parent", None)
+                if isinstance(par, ast.NamedExpr) and len(av.args) >= 2:
+                    loop = par
+                    while loop is not None and not isinstance(loop, (ast.While, ast.If, ast.stmt)):
+                        loop = getattr(loop, "_parent", None)
+                    if isinstance(loop, (ast.While, ast.If)) and any(x is par for x in ast.walk(loop.test)):
+                        self.problems.append((node.lineno, f"the drain is guarded by a test of the popped *value* `{node.id}` (pop with the "
+                                              f"default {src(av.args[1])}) instead of by `cursor in storage`: an item that is falsy or equal "
+                                              f"to the default ('' / 0 / None) is taken out of the storage but neither emitted nor counted, "
+                                              f"and its successors are held back forever"))
+                self.popped = getattr(self, "popped", set()) | {node.id}
+                if len(av.args) == 1 and not guard:
+                    self.problems.append((node.lineno, "storage.pop(cursor) without a dominating `cursor in storage` test"))
+                return (state,)
+            if node.id == self.value:
+                self.value_rebound = True
         if kind == "yield" and self.emit_kind == "yield":
             return self._emit(node.value, node, state, ctx)
         if kind == "emit":
@@ -284,17 +308,40 @@ def _mutated_fields(c: Cls) -> Set[str]:
     return out
 
 
+class _Resets(Client):
+    """state = frozenset of fields assigned on this path"""
+
+    def should_inline(self, func, call, ctx):
+        return False
+
+    def event(self, kind, node, state, ctx):
+        if kind == "store" and isinstance(node, ast.Attribute) and ctx.scope.is_self(node.value):
+            return (state | {node.attr},)
+        return (state,)
+
+
 def reset_agreement(prog, rep: Report, rule: str, c: Cls, method: str, exempt: Dict[str, str], scenario: str):
     init = _init_values(prog, c)
     f = prog.method(c, method)
     rep.fn(f)
     state_fields = sorted(_mutated_fields(c) & set(init))
     resets = {}
-    for n in walk_own(f.node):
-        if isinstance(n, ast.Assign) and len(n.targets) == 1:
-            d = dotted(n.targets[0])
-            if d and len(d) == 2 and d[0] == f.self_name:
-                resets[d[1]] = n.value
+    from ..util import iter_stores
+    for t, val, st_ in iter_stores(f.node):
+        d = dotted(t)
+        if d and len(d) == 2 and d[0] == f.self_name and val is not None:
+            resets[d[1]] = val
+    it = Interp(prog, _Resets())
+    ex = it.run(f, {frozenset()}, c)
+    finals = ex.normal | ex.ret
+    always = set.intersection(*[set(s_) for s_ in finals]) if finals else set()
+    for fld in state_fields:
+        if fld in resets and fld not in always and fld not in exempt:
+            rep.viol(rule, f, f"reset:{fld}", f"{method}() restores self.{fld} only on some of its paths (an early exit skips the reset)",
+                     scenario=scenario)
+            resets.pop(fld)
+            init = {k: v for k, v in init.items() if k != fld}
+    state_fields = [x for x in state_fields if x in init]
     for fld in state_fields:
         if fld in exempt:
             rep.ok(rule, f, f"reset:{fld}", f"exempt: {exempt[fld]}", nontrivial=False)
